@@ -210,3 +210,22 @@ Definition parse_event (raw0 : str) : res (option wevent) :=
 (* what ParseEvent hands to time.Parse(capServerTimeFormat, .): Tags.Get("time") *)
 Definition tag_time : str := Eval vm_compute in bs "time".
 Definition server_time_raw (e : wevent) : option str := tags_get (we_tags e) tag_time.
+
+(* The timestamp ParseEvent assigns.  time.Parse(capServerTimeFormat, .) is not modelled:
+   it is a parameter (together with its result type).  FromServer t: the parsed server
+   time; LocalNow: time.Now() at the moment of the call. *)
+Section Timestamp.
+  Variable T : Type.
+  Variable parse_time : str -> option T.
+
+  Inductive wstamp : Type := FromServer (t : T) | LocalNow.
+
+  Definition event_timestamp (e : wevent) : wstamp :=
+    match server_time_raw e with
+    | Some v => match parse_time v with Some t => FromServer t | None => LocalNow end
+    | None => LocalNow
+    end.
+End Timestamp.
+Arguments FromServer {T} _.
+Arguments LocalNow {T}.
+Arguments event_timestamp {T} _ _.
